@@ -139,18 +139,18 @@ OPTS_Q = [(), ('trough',), ('amp',), ('amp', 'trough'), ('nc2',), ('b5', 'trough
 
 def spaces(tier, seed):
     FULL[0] = tier != 'quick'
-    if tier == 'quick':
-        al = S.alphabet(5)
-        return [ProductSpace('tiny{-1,0,1}^9-cyclepoints', [[-1, 0, 1]] * 9, eval_tiny,
-                             describe='compute_cyclepoints on every signal in {-1,0,1}^9 (9-tap filter): rate and scale covariance'),
-                ProductSpace('W(5,5)xdefault', S.word_dims(al, 5) + [[OPTS_Q[0]]], evaluate,
-                             bounds={'letters': al, 'scales': SCALES, 'rates': RATES}),
-                ProductSpace('W(4,5)xopts', S.word_dims(S.alphabet(4), 5) + [OPTS_Q[1:]], evaluate,
-                             bounds={'letters': S.alphabet(4), 'scales': SCALES, 'rates': RATES})]
-    al = S.alphabet(8, seed, extra=2)
-    devs = [d for d in S.option_sets(2, ['trough', 'amp', 'nc2', 'ns.5', 'b1', 'b5', 'band5_12', 'band7_16', 'thr1', 'dc5', 'neg'])]
-    return [ProductSpace('tiny{-1,0,1}^12-cyclepoints', [[-1, 0, 1]] * 12, eval_tiny),
-            ProductSpace('W(10,5)xcore', S.word_dims(al, 5) + [OPTS_Q[:4]], evaluate, bounds={'letters': al}),
-            ProductSpace('W(6,6)xcore', S.word_dims(S.alphabet(6), 6) + [OPTS_Q[:2]], evaluate),
-            ProductSpace('W(5,5)x2dev', S.word_dims(S.alphabet(5), 5) + [devs], evaluate,
-                         bounds={'option_sets': len(devs), 'max_deviations': 2})]
+    al = S.alphabet(5)
+    out = [ProductSpace('tiny{-1,0,1}^9-cyclepoints', [[-1, 0, 1]] * 9, eval_tiny,
+                        describe='compute_cyclepoints on every signal in {-1,0,1}^9 (9-tap filter): rate and scale covariance'),
+           ProductSpace('W(5,5)xdefault', S.word_dims(al, 5) + [[OPTS_Q[0]]], evaluate,
+                        bounds={'letters': al, 'scales': SCALES, 'rates': RATES}),
+           ProductSpace('W(4,5)xopts', S.word_dims(S.alphabet(4), 5) + [OPTS_Q[1:]], evaluate,
+                        bounds={'letters': S.alphabet(4), 'scales': SCALES, 'rates': RATES})]
+    if tier != 'quick':
+        al = S.alphabet(4, seed, extra=2)
+        devs = [d for d in S.option_sets(2, ['trough', 'amp', 'nc2', 'ns.5', 'b1', 'b5', 'band5_12', 'band7_16', 'thr1', 'dc5', 'neg'])]
+        out += [ProductSpace('tiny{-1,0,1}^12-cyclepoints', [[-1, 0, 1]] * 12, eval_tiny),
+                ProductSpace('W(6,5)xcore', S.word_dims(al, 5) + [OPTS_Q[:4]], evaluate, bounds={'letters': al}),
+                ProductSpace('W(3,5)x2dev', S.word_dims(S.alphabet(3), 5) + [devs], evaluate,
+                             bounds={'option_sets': len(devs), 'max_deviations': 2})]
+    return out
